@@ -70,7 +70,7 @@ def Table.WF (t : Table) : Prop :=
 
 instance (t : Table) : Decidable t.WF := by unfold Table.WF; infer_instance
 
-/-! ## read_fits_core after fixes/C07-1.diff (validation) -/
+/-! ## read_fits_core after fixes/C07-1.diff (validation; on top of the storage guard of commit 907b348) -/
 
 /-- the `KNOTSn` loop with the validation block: counts are checked before the knot vector is allocated,
     values after it has been read -/
@@ -168,7 +168,7 @@ inductive Stop where
   | done
 deriving DecidableEq, Repr
 
-/-- State of the object at a stop, `nullInit` = the two initialisations added by fixes/C07-2.diff
+/-- State of the object at a stop, `nullInit` = the two initialisations added with the storage guard (907b348)
     (`std::fill(knots, knots+ndim, nullptr)`, `extents[0] = nullptr`).  Blocks are numbered in source order:
     0 aux, 1 order, 2 periods, 3 knots, 4 nknots, 5 extents, 6 extents[0], 7 naxes, 8 strides, 9 coefficients,
     10+i knots[i]. -/
@@ -221,14 +221,14 @@ def destroy (o : Obj) : Except Fault (List Nat) :=
   (if o.extents = .null then .ok l else freeAll [o.extents0, o.extents] l).bind fun l =>
   freeAll [o.periods, o.coefficients, o.naxes, o.strides, o.aux] l
 
-/-- `read_cleanup::~read_cleanup()` of fixes/C07-2.diff when the read did not complete: every member is
-    tested before it is followed or released; then the object is reset. -/
+/-- `splinetable::release_storage()`, run by the `storage_guard` in `read_fits_core` when the read does not
+    complete (commit 907b348): every member is tested before it is followed or released; then the object is reset. -/
 def cleanup (o : Obj) : Except Fault Obj :=
   (if o.knots = .null then .ok o.live
    else (freeAll (o.knotEntries.take o.ndim) o.live).bind (freeAll [o.knots])).bind fun l =>
-  (freeAll [o.nknots] l).bind fun l =>
+  (freeAll [o.nknots, o.order] l).bind fun l =>
   (if o.extents = .null then .ok l else freeAll [o.extents0, o.extents] l).bind fun l =>
-  (freeAll [o.periods, o.coefficients, o.naxes, o.strides, o.order, o.aux] l).bind fun l =>
+  (freeAll [o.periods, o.coefficients, o.naxes, o.strides, o.aux] l).bind fun l =>
   .ok { live := l }
 
 /-- which stop a reader verdict corresponds to -/
